@@ -62,3 +62,6 @@ func isGzipReaderOnBody(r *Request, orig io.ReadCloser) bool {
 	g, ok := r.Request.Body.(*gzip.Reader)
 	return ok && g != nil && resetTarget(g) == orig && readerHeld(g) == 1
 }
+
+// regHas: an accessor is registered under exactly this key.
+func regHas(r *entityReaderWriters, k string) bool { _, ok := r.accessors[k]; return ok }
